@@ -75,20 +75,25 @@ pub fn run(ctx: &Ctx) -> Outcome {
                                 continue;
                             }
                             // split shapes: whole, and (stateful front-ends) one cut near the middle on the granule
-                            let mut shapes: Vec<Vec<usize>> = vec![vec![l]];
+                            // and (front-ends with single-block entry points) block by block through those
+                            let mut shapes: Vec<(Vec<usize>, bool)> = vec![(vec![l], false)];
                             if fe.multi && l >= 2 * fe.gran {
                                 let cut = (l / 2 / fe.gran).max(1) * fe.gran;
-                                shapes.push(vec![cut, l - cut]);
+                                shapes.push((vec![cut, l - cut], false));
                             }
-                            for shape in &shapes {
-                                let base_pieces: Vec<P> = shape.iter().map(|&n| p(n, Kind::InPlace)).collect();
+                            if fe.singles && l >= fe.gran && l / fe.gran <= 6 {
+                                shapes.push((vec![fe.gran; l / fe.gran], true));
+                            }
+                            for (shape, single) in &shapes {
+                                let single = *single;
+                                let base_pieces: Vec<P> = shape.iter().map(|&n| P { single, ..p(n, Kind::InPlace) }).collect();
                                 let Ok(Ok(base)) = std::panic::catch_unwind(std::panic::AssertUnwindSafe(|| (fe.run)(key, &iv, m, &base_pieces, &want))) else {
                                     rep.case(|| (fe.run)(key, &iv, m, &base_pieces, &want).map(|_| ()));
                                     continue;
                                 };
                                 rep.outcome(&base.out);
                                 for &k in &others {
-                                    let pieces: Vec<P> = shape.iter().map(|&n| p(n, k)).collect();
+                                    let pieces: Vec<P> = shape.iter().map(|&n| P { single, ..p(n, k) }).collect();
                                     for (pn, pre) in prefills(seed, m, &want) {
                                         rep.case(|| {
                                             let got = (fe.run)(key, &iv, m, &pieces, &pre)?;
